@@ -1,7 +1,7 @@
 #!/bin/bash
 # tools/confirmseed.sh <id>: confirm a seeded change in its scratch worktree /tmp/seed/<id>:
 # patch == worktree diff, build + existing tests pass with it, demonstration fails with it and passes without.
-id=$1; wt=/tmp/seed/$id; out=/tmp/seedout/$id
+id=$1; wt=${SEED_WT:-/tmp/seed}/$id; out=${SEED_OUT:-/tmp/seedout}/$id
 export GOFLAGS=-mod=mod GOPROXY=off GOSUMDB=off GOTOOLCHAIN=local
 cd $wt || exit 2
 git diff > /tmp/confirm.$id.diff
